@@ -184,3 +184,174 @@ Example C05_ex_cycle :
   | Fuel _ => ([], [], false, false)
   end = ([false; true], [- (1 # 2); 1 # 2], true, true).
 Proof. vm_compute. reflexivity. Qed.
+
+(* ======================================================================
+   Follow-up: from cost certificates to POSITIONS (strong convexity), chain
+   instances against PAVA, and non-vacuity of the hypothesis solve = Ok. *)
+From Labella Require Import Vpsc.Convex Vpsc.ChainPava Vpsc.TestSuite.
+From Labella Require Layout.Pava Layout.Layer.
+
+(* (6) strong convexity, full generality: for ANY x, ANY multipliers >= 0 and
+   every feasible y,
+     sum_i w_i (x_i - y_i)^2 <= pos_gap x lam + 2 (cost y - cost x),
+   pos_gap x lam = 2 sum_c lam_c slack_c(x) + 4 sum_i resid_i^2/(4 w_i)
+                 = 4 dual_gap x lam - 2 sum_c lam_c slack_c(x).
+   (With exact stationarity, resid = 0, this is sum w (x-y)^2 <= 2 comp_gap;
+   the factor 4 on the residual part is what the inequality
+   w t^2 + r t >= w t^2/2 - r^2/(2w) costs.) *)
+Theorem C05_strong_convexity : forall vars cons x lam y,
+  (forall v, In v vars -> 0 < v_w v) ->
+  (forall c, In c cons -> (c_l c < length vars)%nat /\ (c_r c < length vars)%nat) ->
+  (forall l, In l lam -> 0 <= l) ->
+  feasible vars cons y ->
+  wdist vars x y <= pos_gap vars cons x lam + 2 * (cost_fn vars y - cost_fn vars x).
+Proof. exact strong_convexity. Qed.
+Print Assumptions C05_strong_convexity.
+
+(* every feasible point that is at least as cheap as x -- in particular every
+   optimum -- lies within pos_gap of x in the weighted squared distance *)
+Theorem C05_close_to_any_optimum : forall vars cons x lam y,
+  (forall v, In v vars -> 0 < v_w v) ->
+  (forall c, In c cons -> (c_l c < length vars)%nat /\ (c_r c < length vars)%nat) ->
+  (forall l, In l lam -> 0 <= l) ->
+  feasible vars cons y -> cost_fn vars y <= cost_fn vars x ->
+  wdist vars x y <= pos_gap vars cons x lam.
+Proof. exact close_to_any_optimum. Qed.
+Print Assumptions C05_close_to_any_optimum.
+
+(* each coordinate: w_i (x_i - y_i)^2 <= the weighted distance, i.e.
+   |x_i - y_i| <= sqrt(bound / w_i) (no square roots over Q) *)
+Theorem C05_distance_per_coordinate : forall vars x y i,
+  (forall v, In v vars -> 0 < v_w v) -> (i < length vars)%nat ->
+  v_w (var_at vars i) * ((xat x i - xat y i) * (xat x i - xat y i)) <= wdist vars x y.
+Proof. exact wdist_coord. Qed.
+Print Assumptions C05_distance_per_coordinate.
+
+(* the optimum is unique (strict convexity; midpoint argument) *)
+Theorem C05_optimum_unique : forall vars cons y1 y2,
+  (forall v, In v vars -> 0 < v_w v) ->
+  (forall c, In c cons -> (c_l c < length vars)%nat /\ (c_r c < length vars)%nat) ->
+  feasible vars cons y1 -> feasible vars cons y2 ->
+  (forall z, feasible vars cons z -> cost_fn vars y1 <= cost_fn vars z) ->
+  (forall z, feasible vars cons z -> cost_fn vars y2 <= cost_fn vars z) ->
+  forall i, (i < length vars)%nat -> xat y1 i == xat y2 i.
+Proof. exact optimum_unique. Qed.
+Print Assumptions C05_optimum_unique.
+
+(* the per-run certificate as a statement about positions: a state accepted by
+   kkt_ok is within 4 * 1e-6 (1 + cost) + 2 * 1e-10 * (sum of its multipliers)
+   of every feasible point at least as cheap, hence of THE optimum.  (The
+   second term accounts for slacks in [-1e-10, 0); it vanishes when the state
+   is exactly feasible.) *)
+Theorem kkt_ok_close_to_any_optimum : forall vars cons st, kkt_ok vars cons st = true ->
+  let x := positions vars st in
+  exists lam, exit_multipliers vars cons st = Ok lam /\
+    forall y, feasible vars cons y -> cost_fn vars y <= cost_fn vars x ->
+      wdist vars x y <= 4 * opt_bound (cost_fn vars x) + 2 * (FEAS_EPS * qsum lam).
+Proof. exact kkt_ok_close. Qed.
+Print Assumptions kkt_ok_close_to_any_optimum.
+
+(* (7) chain instances as Layout/Layer.v builds them: chain_vars d w has scale 1
+   and the given weights (1 for items, 1e10 for walls), chain_cons g one
+   constraint (i, i+1, g_i) per adjacent pair.  pava d w g is THE optimum of
+   that solver problem, and a certified, exactly feasible exit state is
+   within 1e-6 (1 + cost) of it in the weighted squared distance -- whatever
+   sequence of merges and splits the solver went through. *)
+Theorem C05_chain_pava_is_the_optimum : forall d w g y, Pava.chain_ok d w g ->
+  length y = length d -> feasible (chain_vars d w) (chain_cons g) y ->
+  cost_fn (chain_vars d w) (Pava.pava d w g) <= cost_fn (chain_vars d w) y.
+Proof. intros d w g y H. exact (pava_is_the_optimum d w g H y). Qed.
+Print Assumptions C05_chain_pava_is_the_optimum.
+
+Theorem C05_chain_matches_pava : forall d w g st, Pava.chain_ok d w g ->
+  let vars := chain_vars d w in let cons := chain_cons g in
+  kkt_ok vars cons st = true -> feasibleb vars cons (positions vars st) = true ->
+  wdist vars (positions vars st) (Pava.pava d w g) <= opt_bound (cost_fn vars (positions vars st)).
+Proof. exact chain_state_matches_pava. Qed.
+Print Assumptions C05_chain_matches_pava.
+
+(* without exact feasibility of x the cost difference stays explicit *)
+Theorem C05_chain_matches_pava_general : forall d w g x lam, Pava.chain_ok d w g ->
+  (forall l, In l lam -> 0 <= l) ->
+  wdist (chain_vars d w) x (Pava.pava d w g) <=
+  pos_gap (chain_vars d w) (chain_cons g) x lam
+  + 2 * (cost_fn (chain_vars d w) (Pava.pava d w g) - cost_fn (chain_vars d w) x).
+Proof. intros d w g x lam H. exact (chain_close_to_pava_general d w g H x lam). Qed.
+Print Assumptions C05_chain_matches_pava_general.
+
+(* a layer chain with both walls: the solver returns, its state is certified
+   (kkt_ok), exactly feasible, and equals pava coordinate by coordinate *)
+Example C05_ex_layer_chain :
+  let d := Layer.chain_d layer_opts layer_items in
+  let w := Layer.chain_w layer_opts layer_items in
+  let g := Layer.chain_g layer_opts layer_items in
+  match solve (chain_vars d w) (chain_cons g) with
+  | Ok (st, c, _) =>
+      let x := positions (chain_vars d w) st in
+      kkt_ok (chain_vars d w) (chain_cons g) st && feasibleb (chain_vars d w) (chain_cons g) x
+      && Qle_bool (wdist (chain_vars d w) x (Pava.pava d w g)) (opt_bound (cost_fn (chain_vars d w) x))
+      && forallb (fun ab => Qeq_bool (fst ab) (snd ab)) (combine x (Pava.pava d w g))
+      && Nat.eqb (length x) (length (Pava.pava d w g))
+  | Fuel _ => false
+  end = true.
+Proof. vm_compute. reflexivity. Qed.
+
+(* non-vacuity of `solve = Ok`: on all eleven instances of tests/test_vpsc.py
+   the model returns and its result passes every proved checker *)
+Example C05_ex_test_suite_solves : forallb solved_ok test_suite = true /\ length test_suite = 11%nat.
+Proof. vm_compute. split; reflexivity. Qed.
+
+(* (8) Fuel.  The model's three fuels: 1 = recursion depth of the traversals
+   (trav_fuel = |vars| + 1), 2 = iterations of the satisfy loop (sat_fuel),
+   3 = rounds of solve (solve_fuel).
+   PROVED: the traversal fuel is always enough -- in every state solve reaches
+   the active constraints of a block form a tree (I3), so compute_lm,
+   populateSplitBlock, findPath and isActiveDirectedPathBetween recurse at most
+   |vars| deep; Blocks.split, splitBetween and the whole loop body therefore
+   never return out-of-fuel.  Consequently solve can only fail to return by
+   exhausting a LOOP fuel: *)
+From Labella Require Import Vpsc.FuelProofs Vpsc.FuelLoop.
+
+Theorem C05_traversal_fuel_enough : forall vars cons k,
+  inst_ok vars cons = true -> solve vars cons = Fuel k -> k = 2%nat \/ k = 3%nat.
+Proof.
+  intros vars cons k IO H.
+  exact (solve_only_loop_fuel vars cons k (inst_ok_idx vars cons IO) (inst_ok_sc vars cons IO) H).
+Qed.
+Print Assumptions C05_traversal_fuel_enough.
+
+(* the loop body itself always returns (no fuel involved once the traversals are bounded) *)
+Theorem C05_loop_body_returns : forall vars cons pend st c,
+  Inv vars cons pend st -> idx_ok vars cons -> (c < length cons)%nat ->
+  exists st', satisfy_body vars cons st c = Ok st'.
+Proof. exact satisfy_body_no_fuel. Qed.
+Print Assumptions C05_loop_body_returns.
+
+(* PROVED: a satisfy loop that meets no split-between terminates within the fuel
+   the model passes.  satisfy_loop_mo is satisfy_loop with the split-between
+   branch replaced by the marker Fuel 4; where it returns Ok so does
+   satisfy_loop, with the same state; and it never runs out of loop fuel,
+   because every iteration removes a block (merge) or an unflagged constraint
+   (flag):  mu = #blocks + #unflagged <= |vars| + |cons| <= sat_fuel. *)
+Theorem C05_satisfy_loop_terminates_without_split_between : forall vars cons st v,
+  idx_ok vars cons -> Inv vars cons (pend_of vars cons st v) st -> MVg vars cons st v ->
+  satisfy_loop_mo vars cons (sat_fuel vars cons) st v <> Fuel 2 /\
+  (forall st', satisfy_loop_mo vars cons (sat_fuel vars cons) st v = Ok st' ->
+               satisfy_loop vars cons (sat_fuel vars cons) st v = Ok st').
+Proof.
+  intros vars cons st v IDX I M. split.
+  - apply (satisfy_loop_mo_terminates vars cons); try assumption. exact (sat_fuel_above_measure vars cons _ st I).
+  - intros st'. apply loop_mo_agrees.
+Qed.
+Print Assumptions C05_satisfy_loop_terminates_without_split_between.
+
+(* NOT KNOWN (C05_terminates_partial is the two theorems above): (a) a bound on
+   the iterations of satisfy when split-between occurs -- a split adds a block,
+   the re-merge removes one, and the re-queued constraint returns to the
+   inactive list, so #blocks + #unflagged does not decrease and no other
+   decreasing measure is known (WebCola gives none); (b) a bound on the rounds
+   of solve: b960568 bounds the CONSECUTIVE stationary rounds by len(cs)
+   (`stalled < len(self.cs)`), but rounds in which the cost moves by more than
+   1e-4 are not bounded by anything proved here (the cost is not shown to be
+   monotone across rounds).  On every generated instance the model returned
+   with at most 9 rounds; solve_fuel = 200 + 2 |cons|. *)
